@@ -361,7 +361,7 @@ def select(prop, tier, only, seed=0):
             if any(o in ob["name"] for o in only):
                 obs.append(ob)
             continue
-        if tier == "quick" and ob.get("tier", "quick") != "quick":
+        if tier == "quick" and (ob.get("tier", "quick") != "quick" or ob.get("prop_tiers", {}).get(prop) == "thorough"):
             skipped.append(ob["name"])
             continue
         if tier == "quick" and "part" in ob and ob["part"] != seed % 2:
